@@ -88,8 +88,9 @@ def classes():
     L = lib()
 
     class RecSubscriber(L['Subscriber']):
-        def __init__(self, world, side, uid, dirn, n0=MAXN, refill=0, raise_at=None, cancel_at=None):
+        def __init__(self, world, side, uid, dirn, n0=MAXN, refill=0, raise_at=None, cancel_at=None, error_raises=False):
             self.world, self.side, self.uid, self.dirn = world, side, uid, dirn
+            self.error_raises = error_raises
             self.n0 = n0
             self.refill = refill
             self.subscription = None
@@ -133,6 +134,8 @@ def classes():
                 return
             self.ev('on_error', exc=repr(exception), exc_type=type(exception).__name__)
             self.terminal = True
+            if self.error_raises:
+                raise AppError('subscriber %d raises from on_error' % self.uid)
 
         # application actions
         def request(self, n):
